@@ -479,6 +479,9 @@ func directed() [][]event {
 		{{Kind: "join", Node: 2, Via: 1}, {Kind: "join", Node: X, Via: 1}, {Kind: "deafen", Node: X}, {Kind: "join", Node: 26, Via: 1}, {Kind: "snapshot", Node: 1}, {Kind: "snapshot", Node: 2}, {Kind: "heal"}, {Kind: "snapshot", Node: X}, {Kind: "restart", Node: X}},
 		// ... the same with an ordinary entry after the catch-up, so that the member's own compaction has something to cut
 		{{Kind: "join", Node: 2, Via: 1}, {Kind: "join", Node: X, Via: 1}, {Kind: "deafen", Node: X}, {Kind: "join", Node: 26, Via: 1}, {Kind: "snapshot", Node: 1}, {Kind: "snapshot", Node: 2}, {Kind: "heal"}, {Kind: "entry", Via: 1}, {Kind: "snapshot", Node: X}, {Kind: "restart", Node: X}, {Kind: "restart", Node: 1}},
+		// a member is removed and joins again under the same id (its process was stopped, it kept its data directory)
+		{{Kind: "join", Node: 2, Via: 1}, {Kind: "join", Node: X, Via: 1}, {Kind: "remove", Node: X, Via: 1}, {Kind: "entry", Via: 1}, {Kind: "join", Node: X, Via: 2}, {Kind: "entry", Via: 1}, {Kind: "restart", Node: 1}},
+		{{Kind: "join", Node: 2, Via: 1}, {Kind: "join", Node: X, Via: 1}, {Kind: "remove", Node: 2, Via: 1}, {Kind: "join", Node: 2, Via: X}, {Kind: "snapshot", Node: 1}, {Kind: "entry", Via: 2}, {Kind: "restart", Node: 2}},
 		// a node started with -join=false, left alone, then attached
 		{{Kind: "join", Node: 2, Via: 1}, {Kind: "standalone", Node: X}, {Kind: "entry", Via: 1}, {Kind: "join", Node: X, Via: 1}, {Kind: "restart", Node: X}},
 		// joins that cannot commit (a member of a two-member group is down): nobody lists the newcomers meanwhile; when the
@@ -625,7 +628,7 @@ func main() {
 		"servers are built by the real Server.setup(); joins go through the real NodesManager.Join / AddNode handshake, removals through RemoveNode; the zero-group snapshot offset is lowered to 0",
 		"one event at a time, the cluster settles in between; a lost handshake reply makes the joining process exit (as cmd/anndb does) and be started again",
 		"a removed node's process is stopped; only members' views are compared",
-		"directed histories (10, both tiers) add a lagging member (appends and snapshots to it are lost until it is healed; its view is not judged while it lags) and a snapshot message whose RPC fails once",
+		"directed histories (12, both tiers) add a lagging member (appends and snapshots to it are lost until it is healed; its view is not judged while it lags) and a snapshot message whose RPC fails once",
 	}
 	run.Finish(ev.Coverage{
 		"states":                        total.States,
